@@ -129,4 +129,4 @@ def body(case):
 
 
 def tests(tier):
-    return [TestSpec("casts", gen_case, body, {"quick": 4000, "thorough": 400000}, tape=2048)]
+    return [TestSpec("casts", gen_case, body, {"quick": 4000, "thorough": 400000}, tape=2048, fuzz={"thorough": 40000})]
